@@ -15,6 +15,8 @@ pub fn dispatch(f: &[String]) -> String {
         "repl" => repl(&f[1], &f[2], &f[3..]),
         "reexec" => reexec(&f[1], &f[2], &f[3]),
         "stdsig" => stdsig(),
+        "progt" => progt(&f[1], &f[2], &f[3], &f[4]),
+        "threads" => threads(&f[1], &f[2], &f[3], &f[4], &f[5], &f[6]),
         "stdin" => with_stdin(&f[1], &f[2..]),
         other => format!("(bad-mode {other})"),
     }
@@ -587,4 +589,191 @@ fn with_stdin(scenario: &str, inner: &[String]) -> String {
         Ok(t) => t,
         Err(_) => format!("(panic {})", take_panic()),
     }
+}
+
+
+/// `threads <flags> <workers> <iters> <cells> <share> <setup>`: run `setup` unscoped in one
+/// interpreter, then start one OS thread per name in `workers` (zero-argument SimpleSL functions
+/// defined by the setup; a name may repeat). All threads wait on a barrier and then execute their
+/// function `iters` times. `share = code`: threads with the same worker name execute ONE shared
+/// `Code` value; `share = fn`: every thread builds its own call from the shared `Function`.
+/// Output: per-thread results (all of them for iters <= 8, else count / errors / whether the ints
+/// returned over all threads are pairwise distinct) and the final contents of `cells`.
+fn threads(flags: &str, workers: &str, iters: &str, cells: &str, share: &str, setup: &str) -> String {
+    use std::collections::{HashMap, HashSet};
+    use std::sync::{Arc, Barrier, mpsc};
+    let mut interp = interpreter_for(flags);
+    let parsed = panic::catch_unwind(AssertUnwindSafe(|| Code::parse(&interp, setup)));
+    let code = match parsed {
+        Err(_) => return format!("(parse-panic {})", take_panic()),
+        Ok(Err(e)) => return format!("(rejected {})", canon::error(&e)),
+        Ok(Ok(c)) => c,
+    };
+    match panic::catch_unwind(AssertUnwindSafe(|| code.exec_unscoped(&mut interp))) {
+        Err(_) => return format!("(setup-panic {})", take_panic()),
+        Ok(Err(e)) => return format!("(setup-error {})", canon::exec_error(&e)),
+        Ok(Ok(_)) => (),
+    }
+    let iters: usize = iters.parse().unwrap_or(1);
+    let names: Vec<&str> = workers.split(',').filter(|n| !n.is_empty()).collect();
+    let mut shared: HashMap<String, Arc<Code>> = HashMap::new();
+    let mut jobs: Vec<Arc<Code>> = Vec::new();
+    for n in &names {
+        let Some(Variable::Function(f)) = interp.get_variable(n).cloned() else {
+            return format!("(no-worker {n})");
+        };
+        let mk = || f.clone().create_call(vec![]).map(Arc::new);
+        let c = if share == "code" {
+            if let Some(c) = shared.get(*n) {
+                c.clone()
+            } else {
+                match mk() {
+                    Ok(c) => {
+                        shared.insert(n.to_string(), c.clone());
+                        c
+                    }
+                    Err(e) => return format!("(call-rejected {})", canon::error(&e)),
+                }
+            }
+        } else {
+            match mk() {
+                Ok(c) => c,
+                Err(e) => return format!("(call-rejected {})", canon::error(&e)),
+            }
+        };
+        jobs.push(c);
+    }
+    let barrier = Arc::new(Barrier::new(jobs.len()));
+    let (tx, rx) = mpsc::channel::<(usize, Result<Vec<String>, String>)>();
+    for (i, job) in jobs.into_iter().enumerate() {
+        let barrier = barrier.clone();
+        let tx = tx.clone();
+        let _ = std::thread::Builder::new().stack_size(64 << 20).spawn(move || {
+            barrier.wait();
+            let r = panic::catch_unwind(AssertUnwindSafe(|| {
+                let mut out = Vec::with_capacity(iters);
+                for _ in 0..iters {
+                    out.push(match job.exec() {
+                        Ok(v) => canon::value(&v),
+                        Err(e) => format!("(error {})", canon::exec_error(&e)),
+                    });
+                }
+                out
+            }));
+            let _ = tx.send((i, r.map_err(|_| take_panic())));
+        });
+    }
+    drop(tx);
+    let n = names.len();
+    let mut results: Vec<Option<Result<Vec<String>, String>>> = (0..n).map(|_| None).collect();
+    let deadline = std::time::Instant::now() + std::time::Duration::from_secs(60);
+    for _ in 0..n {
+        let left = deadline.saturating_duration_since(std::time::Instant::now());
+        match rx.recv_timeout(left) {
+            Ok((i, r)) => results[i] = Some(r),
+            Err(_) => {
+                // threads that never come back: report and let the caller restart this process
+                return "(deadlock)".into();
+            }
+        }
+    }
+    let mut out = String::from("(threads");
+    let mut all_ints: Vec<i64> = Vec::new();
+    let mut ints_only = true;
+    for (i, r) in results.into_iter().enumerate() {
+        match r.unwrap() {
+            Err(loc) => out.push_str(&format!(" (t{i} panic {loc})")),
+            Ok(vals) => {
+                for v in &vals {
+                    match v.strip_prefix("(i ").and_then(|x| x.strip_suffix(')')).and_then(|x| x.parse::<i64>().ok()) {
+                        Some(k) => all_ints.push(k),
+                        None => ints_only = false,
+                    }
+                }
+                if iters <= 8 {
+                    out.push_str(&format!(" (t{i} {})", vals.join(" ")));
+                } else {
+                    let errs = vals.iter().filter(|v| v.starts_with("(error")).count();
+                    let first = vals.first().cloned().unwrap_or_default();
+                    let same = vals.iter().all(|v| *v == first);
+                    out.push_str(&format!(" (t{i} n={} errors={} allsame={} first={})", vals.len(), errs, same as u8, first));
+                }
+            }
+        }
+    }
+    let distinct = {
+        let set: HashSet<i64> = all_ints.iter().copied().collect();
+        ints_only && set.len() == all_ints.len()
+    };
+    out.push_str(&format!(" (distinct {})", distinct as u8));
+    for c in cells.split(',').filter(|c| !c.is_empty()) {
+        match interp.get_variable(c) {
+            Some(v) => out.push_str(&format!(" ({c} {})", canon::value(v))),
+            None => out.push_str(&format!(" ({c} unbound)")),
+        }
+    }
+    out.push(')');
+    out
+}
+
+
+/// `progt <flags> <threads> <iters> <src>`: parse once, run once on this thread (monitored, with
+/// fuel), then let `threads` OS threads execute the SAME parsed `Code` `iters` times each, all
+/// released by a barrier; report how many of the concurrent results differ from the sequential one.
+fn progt(flags: &str, threads: &str, iters: &str, src: &str) -> String {
+    use std::sync::{Arc, Barrier, mpsc};
+    let interp = interpreter_for(flags);
+    let parsed = panic::catch_unwind(AssertUnwindSafe(|| Code::parse(&interp, src)));
+    let code = match parsed {
+        Err(_) => return format!("(parse-panic {})", take_panic()),
+        Ok(Err(e)) => return format!("(rejected {})", canon::error(&e)),
+        Ok(Ok(c)) => Arc::new(c),
+    };
+    let seq = run_code(&code);
+    if !(seq.starts_with("(value") || seq.starts_with("(error")) {
+        return format!("(progt-skipped {seq})");
+    }
+    let show = |r: Result<Variable, simplesl::ExecError>| match r {
+        Ok(v) => format!("(value {})", canon::value(&v)),
+        Err(e) => format!("(error {})", canon::exec_error(&e)),
+    };
+    let seq_plain = show(code.exec());
+    let n: usize = threads.parse().unwrap_or(2);
+    let iters: usize = iters.parse().unwrap_or(1);
+    let barrier = Arc::new(Barrier::new(n));
+    let (tx, rx) = mpsc::channel::<Result<Vec<String>, String>>();
+    for _ in 0..n {
+        let (code, barrier, tx) = (code.clone(), barrier.clone(), tx.clone());
+        let _ = std::thread::Builder::new().stack_size(256 << 20).spawn(move || {
+            barrier.wait();
+            let r = panic::catch_unwind(AssertUnwindSafe(|| {
+                (0..iters)
+                    .map(|_| match code.exec() {
+                        Ok(v) => format!("(value {})", canon::value(&v)),
+                        Err(e) => format!("(error {})", canon::exec_error(&e)),
+                    })
+                    .collect::<Vec<_>>()
+            }));
+            let _ = tx.send(r.map_err(|_| take_panic()));
+        });
+    }
+    drop(tx);
+    let deadline = std::time::Instant::now() + std::time::Duration::from_secs(60);
+    let mut differing = Vec::new();
+    let mut total = 0usize;
+    for _ in 0..n {
+        match rx.recv_timeout(deadline.saturating_duration_since(std::time::Instant::now())) {
+            Err(_) => return "(deadlock)".into(),
+            Ok(Err(loc)) => differing.push(format!("(panic {loc})")),
+            Ok(Ok(vals)) => {
+                for v in vals {
+                    total += 1;
+                    if v != seq_plain && differing.len() < 3 {
+                        differing.push(v);
+                    }
+                }
+            }
+        }
+    }
+    format!("(progt seq={} runs={} differing=({}))", seq_plain, total, differing.join(" "))
 }
